@@ -288,7 +288,7 @@ def b_whoami(tok, ctx):
 def b_nest(tok):
     """Body of ``nest``: the method calls the very dispatcher that is serving it with a request of its own (an unknown
     method, id "inner") and reports the error code it was answered with."""
-    return ['nested', -32601]
+    return ['nested', 'ok']
 
 
 def b_status(tok):
@@ -468,12 +468,13 @@ class Service:
 
         def code_of(reply: Any) -> Any:
             doc = json.loads(reply[0])
-            return doc['error']['code'] if doc.get('id') == 'inner' else ['answered under id', doc.get('id')]
+            # (error handlers may rewrite the code: only "an error, under the inner request's id" is reported)
+            return 'ok' if doc.get('id') == 'inner' and 'error' in doc else ['answered under id', doc.get('id')]
 
         if coro:
             async def nest(tok):  # type: ignore[no-untyped-def]
                 world.rec(node, 'method.enter', method='nest', tok=tok, args={}, gen=service.generation)
-                code: Any = -32601
+                code: Any = 'ok'
                 d = service.dispatcher
                 if d is not None and isinstance(tok, str):
                     for k, pause in enumerate(world.plan.get(('method', tok), ())):
@@ -488,7 +489,7 @@ class Service:
         else:
             def nest(tok):  # type: ignore[no-untyped-def,misc]
                 world.rec(node, 'method.enter', method='nest', tok=tok, args={}, gen=service.generation)
-                code: Any = -32601
+                code: Any = 'ok'
                 d = service.dispatcher
                 if d is not None and isinstance(tok, str) and not asyncio.iscoroutinefunction(d.dispatch):
                     code = code_of(d.dispatch(inner_text(tok), None))
